@@ -7,6 +7,7 @@ import (
 	hc "verif/hcommon"
 
 	"github.com/pdok/texel/morton"
+	"github.com/pdok/texel/pointindex"
 )
 
 func init() { props["C17"] = runC17 }
@@ -126,5 +127,67 @@ func runC17(c *hc.Ctx) error {
 			c.Sample(map[string]any{"op": "FromZ", "z": z, "x": uint64(x), "y": uint64(y)})
 		}
 	}
+	// pointindex.getQuadrantZs through the hook: the children of a pixel are the keys 4z..4z+3, and a parent whose
+	// children do not fit in 32 bits is reported (panic in MustToZ), never aliased
+	q := c.N(2000, 40000)
+	for i := 0; i < q; i++ {
+		var z uint64
+		switch i % 4 {
+		case 0:
+			z = c.Rng.Uint64() >> uint(2*c.Rng.Intn(32))
+		case 1: // a level-32 parent with a wide address
+			pz, _ := morton.ToZ(uint(1<<31+c.Rng.Intn(1<<20)), uint(c.Rng.Uint32()))
+			z = uint64(pz)
+			if c.Rng.Intn(2) == 0 {
+				pz, _ = morton.ToZ(uint(c.Rng.Uint32()), uint(1<<31+c.Rng.Intn(1<<20)))
+				z = uint64(pz)
+			}
+		case 2:
+			pz, _ := morton.ToZ(uint(c.Rng.Uint32()>>1), uint(c.Rng.Uint32()>>1))
+			z = uint64(pz)
+		default:
+			z = c.Rng.Uint64() >> uint(c.Rng.Intn(40))
+		}
+		c.Sum.Evaluations++
+		c.Count("getQuadrantZs parents")
+		keys, panicked := quadrantZs(z)
+		px, py := morton.FromZ(uint(z))
+		wide := uint64(px) >= 1<<31 || uint64(py) >= 1<<31
+		c.Nontrivial(fmt.Sprintf("q%d", z))
+		obs := "None"
+		if !panicked {
+			var ks []string
+			for _, k := range keys {
+				ks = append(ks, hc.CoqN(k))
+			}
+			obs = "(Some " + hc.CoqList(ks) + ")"
+		}
+		switch {
+		case wide && !panicked:
+			c.Violate(hc.Violation{What: "children that do not fit in 32 bits are silently aliased instead of reported as not encodable", Input: map[string]any{"parent_z": z, "parent_x": uint64(px), "parent_y": uint64(py)}, Observed: keys})
+		case !wide && panicked:
+			c.Violate(hc.Violation{What: "getQuadrantZs panics on a parent whose children fit in 32 bits", Input: map[string]any{"parent_z": z}})
+		case !wide:
+			for k := 0; k < 4; k++ {
+				cx, cy := 2*uint64(px)+uint64(k&1), 2*uint64(py)+uint64(k>>1)
+				if keys[k] != specInterleave(cx, cy) || keys[k]>>2 != specInterleave(uint64(px), uint64(py)) {
+					c.Violate(hc.Violation{What: "child key is not the key of (2x+i, 2y+j) / its parent key is not key>>2", Input: map[string]any{"parent_z": z, "child": k}, Observed: keys[k], Expected: specInterleave(cx, cy)})
+				}
+			}
+		}
+		c.Case(fmt.Sprintf("QuadCase %s %s", hc.CoqN(z), obs), map[string]any{"op": "getQuadrantZs", "z": z, "keys": keys, "panic": panicked})
+	}
 	return nil
+}
+
+func quadrantZs(z uint64) (keys []uint64, panicked bool) {
+	defer func() {
+		if r := recover(); r != nil {
+			keys, panicked = nil, true
+		}
+	}()
+	for _, k := range pointindex.VerifGetQuadrantZs(uint(z)) {
+		keys = append(keys, uint64(k))
+	}
+	return keys, false
 }
